@@ -115,6 +115,22 @@ def _impl(tier, seed, search):
         if ok and r is not None: L.close('UDQ*p', np.asarray(r, float).flatten(), R @ p + t, TOL, scale, dict(q=qv, t=t, p=p),
                                          what='UnitDualQuaternion * point differs from R p + t')
         elif ok: L.check('UDQ*p', False, dict(q=qv, t=t, p=p), 'UnitDualQuaternion * point returned None', sig='UDQ*p:none')
+        # the same rotation reached by conversion from the matrix (r2q) must act the same way
+        #  (only for rotation angles 1e-4 .. pi-1e-4: the accuracy of the matrix -> quaternion conversion itself is C04's subject)
+        conv_ok = 1e-4 < abs(th) % (2 * math.pi) < math.pi - 1e-4 or math.pi + 1e-4 < abs(th) % (2 * math.pi) < 2 * math.pi - 1e-4
+        ok, r = (L.noraise('UQ(R)*p', lambda: UnitQuaternion(SO3(R, check=False)) * p, dict(R=R, p=p), 'UnitQuaternion(SO3) * point') if conv_ok else (False, None))
+        if ok: L.close('UQ(R)*p', np.asarray(r, float).flatten(), ref, TOL, float(np.max(np.abs(p))), dict(R=R, p=p), what='UnitQuaternion converted from a rotation matrix does not rotate like the matrix')
+        ok, r = (L.noraise('UDQ(T)*p', lambda: UnitDualQuaternion(SE3(Tm, check=False)) * p, dict(T=Tm, p=p), 'UnitDualQuaternion(SE3) * point') if conv_ok else (False, None))
+        if ok and r is not None: L.close('UDQ(T)*p', np.asarray(r, float).flatten(), R @ p + t, TOL, scale, dict(T=Tm, p=p), what='UnitDualQuaternion converted from an SE3 does not act like the SE3')
+        # multi-valued unit quaternion times one vector: column k is value k applied to the vector (any number of values)
+        Mq = int(g.integers(2, 6)); qs_ = [inputs.unitq(g) for _ in range(Mq)]
+        ok, r = L.noraise('UQ[M]*p', lambda: UnitQuaternion(qs_) * p, dict(M=Mq, p=p), 'multi-valued UnitQuaternion * point')
+        if ok:
+            r_ = np.asarray(r, float)
+            L.check('UQ[M]*p:shape', r_.shape == (3, Mq), dict(M=Mq), f'multi-valued UnitQuaternion * point has shape {r_.shape}, expected (3, {Mq})', sig='UQ[M]*p')
+            if r_.shape == (3, Mq):
+                want_ = np.stack([b.q2r(q_) @ p for q_ in qs_], axis=1)
+                L.close('UQ[M]*p', r_, want_, TOL, float(np.max(np.abs(p))), dict(M=Mq, p=p), sig='UQ[M]*p')
         ok, r = L.noraise('homtrans', lambda: b.homtrans(Tm, p), dict(T=Tm, p=p), 'homtrans(T, p)')
         if ok: L.close('homtrans', np.asarray(r, float).flatten(), R @ p + t, TOL, scale, dict(T=Tm, p=p))
         N = int(g.integers(1, 8)); Pn = pts(3, N)
